@@ -63,7 +63,7 @@ class PROP(Prop):
                 foreign += [bytes([0x18, 0, 4, 0, 1, 0xAA, 0xBB]), bytes([0x18, 0, 0]), bytes([0x07, 0x55]), bytes([0x0B, 0, 0, 0, 9]), bytes([0x0C, 2, 1, 2]),
                             bytes([0x81, 2]), bytes([0x98, 1]), bytes([0xAB, 4])]
                 if proto == "tcp":
-                    foreign += [bytes([0x41, 1, 2, 3]), bytes([0x2B, 0x0E]), bytes([0xFF, 1])]
+                    foreign += [bytes([0x41, 1, 2, 3]), bytes([0x2B, 0x0E]), bytes([0xFF, 1]), b"", bytes([0x03]), bytes([0x83]), bytes([0x01, 0x02])]
                 # the reply of the matching kind, complete and well-formed, followed by surplus bytes inside the same frame (Modbus TCP: the
                 # MBAP length covers them; RTU framing cannot deliver such a PDU): a result, never a panic, never success
                 if proto == "tcp":
@@ -76,7 +76,7 @@ class PROP(Prop):
                                            {"foreign": True, "req": mb.show_req(req), "pdu": (own + extra).hex(), "split": 0}, prof))
                 for req in typed_reqs:
                     for pdu in foreign:
-                        if pdu[0] == mb.req_fc(req):
+                        if len(pdu) > 1 and pdu[0] == mb.req_fc(req):
                             continue
                         slave = rng.randrange(1, 248)
                         fr = cligen.frame(proto, 0, slave, pdu)
